@@ -40,6 +40,9 @@ def corruptions(r, base):
         mk("shift-ts-0", lambda c: c["sync"].__setitem__(tss[0], ("TS", 1, 4)))
     mk("drop-all-tempo", lambda c: c.__setitem__("sync", [it for it in c["sync"] if it[0] != "B"]))
     mk("resolution-0", lambda c: c.__setitem__("res", 0))
+    # the Resolution line that counts (the first) is zero, a later one is not
+    mk("resolution-0-then-positive", lambda c: (c.__setitem__("res", 0), c.__setitem__("song_extra", ["Resolution = 192", "Offset = 0"])))
+    mk("resolution-000-then-positive", lambda c: (c.__setitem__("res", 0), c.__setitem__("res_text", "000"), c.__setitem__("song_extra", ["Resolution = 480"])))
     for k in range(len(bs)):
         mk(f"zero-tempo-{k}", lambda c, k=k: c["sync"].__setitem__(bs[k], ("B", c["sync"][bs[k]][1], 0)))
         if k >= 1:
